@@ -14,6 +14,8 @@ import sys
 
 from .model import AnalysisError, src
 
+sys.setrecursionlimit(max(sys.getrecursionlimit(), 40000))
+
 TOP = type('Top', (), {'__repr__': lambda s: 'TOP', '__bool__': lambda s: (_ for _ in ()).throw(AnalysisError('truth value of TOP used'))})()
 
 
@@ -642,6 +644,10 @@ class Interp(object):
             return self.call_closure(fv, args, kwargs)
         if isinstance(fv, ClassRef):
             return self.construct(fv, args, kwargs)
+        if isinstance(fv, Obj):
+            call = self.getattr(fv, '__call__')
+            if isinstance(call, Closure):
+                return self.call_closure(call, args, kwargs)
         if isinstance(fv, tuple) and len(fv) == 3 and fv[0] == 'pymethod':
             _, recv, attr = fv
             if attr in ('append', 'add', 'insert', 'extend') and isinstance(recv, (list, set)) and any(a is TOP or isinstance(a, Obj) for a in args):
